@@ -183,6 +183,8 @@ def enumerate_sites(fn):
             s = Site()
             s.kind = "call:" + lab
             s.sig = short_path(strip_generics(callee))
+            if lab in ("Option::unwrap", "Option::expect", "Result::unwrap", "Result::expect") and t.get("args"):
+                s.sig = s.sig.split("::")[-1] + "<-" + _producer(fn.sym_operand(t["args"][0]))
             s.detail = ", ".join(sym_str(fn.sym_operand(a), 80) for a in t.get("args", []))
             s.line, s.expn = sp[0], sp[1]
         if s is None:
@@ -195,6 +197,33 @@ def enumerate_sites(fn):
         counts[k] = s.ordinal + 1
         sites.append(s)
     return sites, skipped
+
+
+def _producer(sym, depth=6):
+    """Name of the call that produced the value being unwrapped (looking through refs, casts, `?`)."""
+    while depth > 0:
+        depth -= 1
+        k = sym[0]
+        if k in ("ref", "deref", "cast"):
+            sym = sym[1]
+        elif k in ("field", "downcast"):
+            sym = sym[1]
+        elif k == "call":
+            name = strip_generics(sym[1])
+            last = name.split("::")[-1]
+            if last in ("branch", "as_ref", "as_mut", "clone", "map_err", "ok", "into", "as_deref", "copied", "cloned", "take") and sym[2]:
+                sym = sym[2][0]
+                continue
+            return short_path(name)
+        elif k == "param":
+            return "param"
+        elif k == "local":
+            return "local"
+        elif k == "constsym" or k == "const":
+            return "const"
+        else:
+            return k
+    return "?"
 
 
 def _assert_sig(fn, t):
@@ -667,3 +696,47 @@ def check_sites(res, prog, closure, sites, table, prop, derive_groups=True):
 def _derive_group(expn):
     m = re.findall(r"Derive:(\w+)", expn)
     return m[-1] if m else "?"
+
+
+def run_panic_property(prop, tier, crates, entry_rx, table_name, floors, anchors=(), configs=("default",),
+                       explanation="", assumptions=(), stop_rx=None, extra=None, entry_filter=None):
+    """Generic R-PANIC runner used by the never-panics properties."""
+    from .program import Program
+    from .report import Result, finish
+    res = Result(prop, tier, level="other")
+    table = load_table(table_name)
+    for config in configs:
+        P = Program(crates=list(crates), config=config)
+        rx = re.compile(entry_rx)
+        entries = [f for f in P.fns.values() if rx.search(f.path) and (entry_filter is None or entry_filter(f))]
+        stop = (lambda g: re.search(stop_rx, g.path) is not None) if stop_rx else None
+        closure, sites, skipped = census(P, entries, stop=stop)
+        tag = "" if len(configs) == 1 else "[%s]" % config
+        res.count("entries" + tag, len(entries))
+        res.count("closure_functions" + tag, len(closure))
+        res.count("panic_sites" + tag, len(sites))
+        for k, v in skipped.items():
+            res.count("skipped_%s%s" % (k, tag), v)
+        res.floor("entry points" + tag, len(entries), floors.get("entries", 1))
+        res.floor("closure functions" + tag, len(closure), floors.get("closure", 1))
+        res.floor("panic sites" + tag, len(sites), floors.get("sites", 1))
+        for need in anchors:
+            if not any(re.search(need, p) for p in closure):
+                res.violation("anchor:" + need, "anchored function %s not found in the analysed closure" % need, rule="anchor")
+        for p, (fn, _) in closure.items():
+            if fn.b.get("unsafe"):
+                res.violation("unsafe:" + p, "unsafe fn in the analysed closure; the panic census does not cover UB", rule="R-PANIC/unsafe")
+        check_sites(res, P, closure, sites, table, prop)
+        for s in sites[:8]:
+            res.sample({"config": config, "site": s.key(), "where": s.where(), "operands": s.detail})
+        if extra:
+            extra(res, P, closure, sites)
+    res.assumptions += ["dev-profile panic semantics (overflow checks on), as in the pinned test suite",
+                        "std / third-party APIs not on the panicking list are total (list in pv/panic.py)"] + list(assumptions)
+    return finish(res, explanation=explanation,
+                  rule_text="R-PANIC: every MIR Assert{BoundsCheck,Overflow,DivisionByZero,RemainderByZero,OverflowNeg} and every call to a "
+                            "panicking API in closure(entry points) must be discharged by a CFG-verified dominating guard (kill-checked "
+                            "comparison facts, bounded masks/remainders) or by a reviewed table entry whose checked guard spec still holds; "
+                            "an undischarged site is reported with file:line, function and call path",
+                  trusted_base=["rustc MIR (nightly, opt-level 0, overflow checks on)", "tables/%s (reviewed reasons)" % table_name,
+                                "panicking-API list in pv/panic.py"])
